@@ -489,3 +489,108 @@ func VH_C06_target_reports_a_grant_stored_only_if_it_is_stored() {
 		verifAssert(gerr != nil || len(got) == 0, "C06: a refused grant leaves nothing behind")
 	}
 }
+
+// Two logins whose file reads overlap. The engine is sequential, so the
+// overlap is scripted: the outer login's authorized_keys file hands control to
+// a second, complete login at one of its Read boundaries (before or after the
+// bytes were copied out) — exactly what a goroutine switch at that point does.
+// Each login must be decided by its own user's file alone.
+
+type c05SwitchFile struct {
+	s        *HopServer
+	text     string
+	off      int
+	at       int // the Read call (1-based) at which the other login runs; 0 = never
+	after    bool
+	reads    int
+	user     string
+	key      keys.DHPublicKey
+	otherErr error
+	ran      bool
+}
+
+func (f *c05SwitchFile) Stat() (fs.FileInfo, error) { return nil, errors.New("no stat") }
+func (f *c05SwitchFile) Close() error               { return nil }
+func (f *c05SwitchFile) other() {
+	f.ran = true
+	f.otherErr = f.s.AuthorizeKey(f.user, f.key)
+}
+func (f *c05SwitchFile) Read(p []byte) (int, error) {
+	f.reads++
+	here := f.reads == f.at && !f.ran
+	if here && !f.after {
+		f.other()
+	}
+	if f.off >= len(f.text) {
+		if here && f.after {
+			f.other()
+		}
+		return 0, io.EOF
+	}
+	n := copy(p, f.text[f.off:])
+	f.off += n
+	if here && f.after {
+		f.other()
+	}
+	return n, nil
+}
+
+type c05TwoFS struct {
+	outerUser string
+	outer     *c05SwitchFile
+	text      [2]string
+}
+
+func (t *c05TwoFS) Open(name string) (fs.File, error) {
+	u := 1
+	if len(name) >= 10 && name[:10] == "home/user0" {
+		u = 0
+	}
+	if t.outer != nil && !t.outer.ran && t.outer.reads == 0 && t.outer.off == 0 && name == t.outerUser {
+		return t.outer, nil
+	}
+	return &c05Reader2{c05Reader{s: t.text[u]}}, nil
+}
+
+type c05Reader2 struct{ c05Reader }
+
+func (c *c05Reader2) Stat() (fs.FileInfo, error) { return nil, errors.New("no stat") }
+func (c *c05Reader2) Close() error               { return nil }
+
+func c05UserDirByName(user string) (string, error) { return "/home/" + user + "/.hop", nil }
+
+//verif:prop C05
+//verif:stub hop.computer/hop/config.UserDirectoryFor = c05UserDirByName
+//verif:replay none
+//verif:bounds two users, each with a one-line authorized_keys file listing their own (concrete) key; an outer login (user 0|1, presenting key 0|1) whose file read is interrupted at its 1st or 2nd Read call, before or after the bytes are copied, by a complete second login (user 0|1, key 0|1); real AuthorizeKey + ParseAuthorizedKeys + bufio.Scanner; one scripted context switch, not all interleavings
+//verif:cover outer-granted;outer-refused;inner-granted;inner-refused
+func VH_C05_overlapping_logins_are_each_decided_by_their_own_file() {
+	var k [2]keys.DHPublicKey
+	for i := range k[0] {
+		k[0][i], k[1][i] = byte(i+1), byte(0xA0+i)
+	}
+	fsys := &c05TwoFS{}
+	fsys.text[0] = k[0].String() + "\n"
+	fsys.text[1] = k[1].String() + "\n"
+	s := &HopServer{fsystem: fsys, config: &config.ServerConfig{}}
+	ou, ok := verifPick("outer-user", 0, 1), verifPick("outer-key", 0, 1)
+	iu, ik := verifPick("inner-user", 0, 1), verifPick("inner-key", 0, 1)
+	users := [2]string{"user0", "user1"}
+	f := &c05SwitchFile{s: s, text: fsys.text[ou], at: verifPick("switch-at-read", 1, 2), after: verifBool("switch-after-copy"), user: users[iu], key: k[ik]}
+	fsys.outer = f
+	fsys.outerUser = "home/" + users[ou] + "/.hop/authorized_keys"
+	err := s.AuthorizeKey(users[ou], k[ok])
+	verifAssert(f.ran, "harness: the second login ran")
+	verifAssert((err == nil) == (ou == ok), "C05: a login that overlaps another user's login is granted iff its key is listed in its own user's file")
+	verifAssert((f.otherErr == nil) == (iu == ik), "C05: the overlapping login is granted iff its key is listed in its own user's file")
+	if err == nil {
+		verifCover("outer-granted")
+	} else {
+		verifCover("outer-refused")
+	}
+	if f.otherErr == nil {
+		verifCover("inner-granted")
+	} else {
+		verifCover("inner-refused")
+	}
+}
